@@ -1,9 +1,26 @@
-import PyYetiVerif.Model.ParSched
-/-! Line protocol for C09 (semantics of access patterns).
-request : `cov <j> <arr> <pattern…> | <cellarr> <i0> <i1> …`
-          pattern tokens: task all loop whole other cN (= const N)
-reply   : `1` / `0`   (does the access, evaluated in task j, touch that cell?)   or `bad-op` -/
+import PyYetiVerif.Model.ParSchedParent
+import PyYetiVerif.Generated.ParFootprint
+import PyYetiVerif.Generated.ParFootprintParent
+/-! Line protocol for C09.
+
+`cov <j> <arr> <pattern…> | <cellarr> <i0> <i1> …`
+      pattern tokens: task all loop whole other cN (= const N)
+      -> `1` / `0`   (does the access, evaluated in task j, touch that cell?)
+`dec <mode> <LF> <size> <maxcpu|none> <getresp 0/1> <cpu> <win 0/1>`
+      -> `<mode'> <ncpu>` or `raise`       (`processParallel` on the REGENERATED decision table)
+`dec <mode> <LF> <size> <maxcpu|none> <getresp 0/1> <cpu> <win 0/1> <srs|fdepsd> <name|picklable|unpicklable>`
+      -> the same for the decision of the routine (`routineDecision`: the regenerated guard after the helper)
+`own <worker> | <arr> <i0> <i1> …`
+      -> owner task of the cell under the regenerated footprint of that worker, or `none`
+`part <worker> <LF> | <arr> <n0> <n1> …`
+      -> `ok` when every cell of the array of that concrete shape is covered by the write patterns of
+         exactly one task j < LF (and that task is the owner), else `bad <cell>`
+`plan <routine> | <atom;atom;…> | <LF> | <sym=value;…>`
+      -> the parent's plan at the pool site of `routine` whose guard holds under the true atoms:
+         `<worker>|<initializer>|<processes>|<method>|<tasks>|<glob>:<var>:<kind>:<shape>,…|<params>|<parArgs>`
+or `bad-op` -/
 open PyYetiVerif.ParSched
+open PyYetiVerif.Generated
 
 def parseIx (s : String) : Option Ix :=
   match s with
@@ -11,16 +28,107 @@ def parseIx (s : String) : Option Ix :=
   | "whole" => some .whole | "other" => some .other
   | _ => if s.startsWith "c" then (s.drop 1).toString.toNat?.map Ix.const else none
 
+def words (s : String) : List String := (s.splitOn " ").filter (· ≠ "")
+
+def findWorker (name : String) : Option Footprint :=
+  ParFootprint.workers.find? (fun fp => fp.name == name)
+
+def showIdx (is : List Nat) : String := ".".intercalate (is.map toString)
+
+def partAnswer (fp : Footprint) (LF : Nat) (arr : String) (shape : List Nat) : String :=
+  let bad := (cellsOf shape).find? (fun is =>
+    let js := (List.range LF).filter (fun j => fp.writes.any (fun a => covers a j (arr, is)))
+    !(js.length == 1 && ownerOf fp (arr, is) == js.head?))
+  match bad with
+  | none => "ok"
+  | some is => "bad " ++ showIdx is
+
+def atomsHold (guard : String) (atoms : List String) : Bool :=
+  ((guard.splitOn " and ").filter (· ≠ "")).all (fun g => atoms.contains g)
+
+def parseEnv (s : String) : String → Nat :=
+  let kv := ((s.splitOn ";").filter (· ≠ "")).filterMap (fun p =>
+    match p.splitOn "=" with
+    | [k, v] => v.toNat?.map (fun n => (k, n))
+    | _ => none)
+  fun k => match kv.find? (fun p => p.1 == k) with
+    | some p => p.2
+    | none => 0
+
+def planAnswer (routine : String) (atoms : List String) (LF : Nat) (env : String → Nat) : String :=
+  match ParFootprintParent.sites.filter (fun s => s.routine == routine && atomsHold s.guard atoms) with
+  | [s] =>
+      let hist := s.select == "" || atoms.contains s.select
+      let worker := if hist then s.workerHist else s.workerNoHist
+      let shared := s.shared.map (fun d =>
+        let shape : String :=
+          if d.kind == "copy" then "-"
+          else
+            match (d.dims.zip d.dimGuards).filter (fun p => atomsHold p.2 atoms) with
+            | [p] => "x".intercalate (p.1.map (fun x => toString (x.eval LF env)))
+            | [] => "none"
+            | _ => "ambiguous"
+        d.glob ++ ":" ++ d.var ++ ":" ++ d.kind ++ ":" ++ shape)
+      "|".intercalate [worker, s.initializer, s.processes, s.method,
+        ",".intercalate ((taskList LF).map toString), ",".intercalate shared,
+        ",".intercalate s.params, ",".intercalate s.parArgs]
+  | [] => "no-site"
+  | _ => "ambiguous-site"
+
 def answer (line : String) : String :=
-  match line.splitOn " | " with
-  | [l, r] =>
-    match (l.splitOn " ").filter (· ≠ ""), (r.splitOn " ").filter (· ≠ "") with
-    | "cov" :: j :: arr :: pat, carr :: idx =>
+  let parts := line.splitOn " | "
+  match parts.map words with
+  | ["cov" :: j :: arr :: pat, carr :: idx] =>
       match j.toNat?, pat.mapM parseIx, idx.mapM String.toNat? with
       | some j, some pat, some idx => if covers ⟨arr, pat⟩ j (carr, idx) then "1" else "0"
       | _, _, _ => "bad-op"
-    | _, _ => "bad-op"
-  | _ => "bad-op"
+  | [["dec", mode, lf, size, maxcpu, getresp, cpu, win, routine, peak]] =>
+      -- decision of the ROUTINE (srs / fdepsd): `_process_parallel`, then the regenerated guard
+      let mx : Option (Option Nat) := if maxcpu == "none" then some none else maxcpu.toNat?.map some
+      let pk : Option PeakArg := match peak with
+        | "name" => some .name | "picklable" => some .picklable | "unpicklable" => some .unpicklable
+        | _ => none
+      let g : Option PickleGuard := match routine with
+        | "srs" => some ParFootprintParent.guard_srs | "fdepsd" => some ParFootprintParent.guard_fdepsd
+        | _ => none
+      match lf.toNat?, size.toNat?, mx, cpu.toNat?, pk, g with
+      | some lf, some size, some mx, some cpu, some pk, some g =>
+          let mode := if mode == "<empty>" then "" else mode
+          match routineDecision ParFootprintParent.decision g mode
+              ⟨lf, size, mx, getresp == "1", cpu, win == "1"⟩ pk with
+          | some (m, n) => m ++ " " ++ toString n
+          | none => "raise"
+      | _, _, _, _, _, _ => "bad-op"
+  | [["dec", mode, lf, size, maxcpu, getresp, cpu, win]] =>
+      let mx : Option (Option Nat) := if maxcpu == "none" then some none else maxcpu.toNat?.map some
+      match lf.toNat?, size.toNat?, mx, cpu.toNat? with
+      | some lf, some size, some mx, some cpu =>
+          let mode := if mode == "<empty>" then "" else mode
+          match processParallel ParFootprintParent.decision mode
+              ⟨lf, size, mx, getresp == "1", cpu, win == "1"⟩ with
+          | some (m, n) => m ++ " " ++ toString n
+          | none => "raise"
+      | _, _, _, _ => "bad-op"
+  | [["own", worker], arr :: idx] =>
+      match findWorker worker, idx.mapM String.toNat? with
+      | some fp, some idx =>
+          match ownerOf fp (arr, idx) with
+          | some j => toString j
+          | none => "none"
+      | _, _ => "bad-op"
+  | [["part", worker, lf], arr :: shape] =>
+      match findWorker worker, lf.toNat?, shape.mapM String.toNat? with
+      | some fp, some lf, some shape => partAnswer fp lf arr shape
+      | _, _, _ => "bad-op"
+  | _ =>
+      match parts with
+      | [l, atoms, lf, env] =>
+          match words l, lf.trimAscii.toString.toNat? with
+          | ["plan", routine], some lf =>
+              planAnswer routine ((atoms.splitOn ";").map (fun a => a.trimAscii.toString)) lf
+                (parseEnv env.trimAscii.toString)
+          | _, _ => "bad-op"
+      | _ => "bad-op"
 
 partial def loop (h : IO.FS.Stream) (out : IO.FS.Stream) : IO Unit := do
   let line ← h.getLine
